@@ -23,9 +23,12 @@ import (
 	"math/rand"
 	"os"
 	"path/filepath"
+	"runtime/debug"
+	"runtime/pprof"
 	"sort"
 	"strconv"
 	"strings"
+	"time"
 
 	"github.com/openconfig/goyang/pkg/yang"
 	"verif/harness/lib"
@@ -55,7 +58,7 @@ func (c regCase) texts() [][]int {
 	return ts
 }
 
-func (h header) text() string {
+func (h header) text(tag string) string {
 	var sb strings.Builder
 	// names are written as quoted strings (they are not always identifiers; none holds a quote or backslash)
 	if h.Sub {
@@ -65,6 +68,10 @@ func (h header) text() string {
 	}
 	for _, r := range h.Revs {
 		fmt.Fprintf(&sb, "revision %q; ", r)
+	}
+	if !h.Sub {
+		// what the statements of the multi-statement clients are observed through (multi.go)
+		sb.WriteString(bodyOf(tag))
 	}
 	sb.WriteString("}")
 	return sb.String()
@@ -187,6 +194,7 @@ func showBindings(m map[string]*yang.Module) string {
 type regObs struct {
 	Line    string   // canonical answer line
 	Process []string // per query: what Process() bound in a client module ("" = not resolved)
+	Multi   []multiObs // clients that carry several import / include statements (multi.go)
 	Crash   string
 }
 
@@ -202,8 +210,8 @@ func runRegistry(c regCase) (obs regObs) {
 	var loads []string
 	for ti, t := range c.texts() {
 		var lines []string
-		for _, i := range t {
-			lines = append(lines, c.Loads[i].text())
+		for si, i := range t {
+			lines = append(lines, c.Loads[i].text(tagOf(ti, si)))
 		}
 		err := ms.Parse(strings.Join(lines, "\n"), fileOf(ti))
 		switch {
@@ -239,6 +247,7 @@ func runRegistry(c regCase) (obs regObs) {
 
 	// the same queries through Process(): one client module per query, so that a failing one
 	// does not stop the others
+	mcs := multiClientsFor(c, qs)
 	func() {
 		defer func() {
 			if r := recover(); r != nil {
@@ -247,6 +256,7 @@ func runRegistry(c regCase) (obs regObs) {
 				_ = r
 			}
 		}()
+		obs.Multi = loadMultiClients(ms, c, mcs)
 		for i, q := range c.Queries {
 			var body string
 			rd := ""
@@ -277,6 +287,7 @@ func runRegistry(c regCase) (obs regObs) {
 		}
 		obs.Process = append(obs.Process, showMod(got))
 	}
+	observeMultiClients(ms, obs.Multi)
 	return obs
 }
 
@@ -584,6 +595,33 @@ func partA(f *lib.Flags, res *lib.Result, d *lib.Driver, distinct *lib.Distinct)
 		lib.Fatal("driver: %v", err)
 	}
 	var specEvaluated int64
+	// the clients that carry several import / include statements: every statement against the answer
+	// for its (name, revision-date) - FindModule's, which is the model's here, and the specification's
+	var multiClients, multiStatements, multiReported int64
+	for i, c := range cases {
+		o := obs[i]
+		if o.Crash != "" || o.Line != ans[i] {
+			continue // reported above
+		}
+		for _, mo := range o.Multi {
+			multiClients++
+			multiStatements += int64(len(mo.Client.Order))
+		}
+		qs := strings.Split(o.Line[strings.LastIndex(o.Line, " q=")+3:], ",")
+		var specQs []string
+		if k := strings.LastIndex(specAns[i], " q="); k >= 0 && !strings.Contains(specAns[i], "undef") && wildEq(o.Line, specAns[i]) {
+			specQs = strings.Split(specAns[i][k+3:], ",")
+		}
+		if d := judgeMulti(c, o, qs, specQs); d != nil {
+			if multiReported++; multiReported > 25 {
+				res.Count("disagreements_not_examined", 1)
+				continue
+			}
+			res.AddDisagreement(*d)
+		}
+	}
+	res.Distribution["registry_multi_statement_clients"] = multiClients
+	res.Distribution["registry_multi_statement_client_statements"] = multiStatements
 	for i, c := range cases {
 		if obs[i].Crash != "" || specAns[i] == "undef" || strings.Contains(specAns[i], "undef") {
 			continue
@@ -1268,11 +1306,30 @@ func main() {
 	res := lib.NewResult("C13", f)
 	distinct := lib.NewDistinct()
 	var na, nb int64
+	if pf := os.Getenv("C13_CPUPROFILE"); pf != "" { // (development aid)
+		if w, err := os.Create(pf); err == nil {
+			pprof.StartCPUProfile(w)
+			defer pprof.StopCPUProfile()
+		}
+	}
+	if os.Getenv("GOGC") == "" {
+		// every case builds a Modules value of its own and drops it: little live data, much garbage
+		debug.SetGCPercent(400)
+	}
+	t0 := time.Now()
+	timing := func(what string) {
+		if os.Getenv("C13_TIMING") != "" {
+			fmt.Fprintf(os.Stderr, "%s done after %v\n", what, time.Since(t0))
+		}
+	}
 	if os.Getenv("C13_ONLY") != "histories" { // (development aid: the histories alone)
 		na = partA(f, res, d, distinct)
+		timing("part (a)")
 		nb = partB(f, res, d, distinct, work)
+		timing("part (b)")
 	}
 	nh := partH(f, res, distinct, work)
+	timing("histories")
 	d.Close()
 	res.DistinctNontrivial = na + nb + nh
 	res.Exhaustive = false
@@ -1336,6 +1393,17 @@ func replay(f *lib.Flags, d *lib.Driver, work string) int {
 				fmt.Printf("Process() bound query %d to %s, FindModule says %s\n", j, o.Process[j], qs[j])
 				rc = 1
 			}
+		}
+		var specQs []string
+		if k := strings.LastIndex(spec, " q="); k >= 0 && !strings.Contains(spec, "undef") && wildEq(o.Line, spec) {
+			specQs = strings.Split(spec[k+3:], ",")
+		}
+		for _, mo := range o.Multi {
+			fmt.Printf("client with the statements %v (include: %v): linked %v uses %v type %v %s\n", mo.Client.Order, mo.Client.Inc, mo.Bound, mo.Uses, mo.Type, mo.Err)
+		}
+		if d := judgeMulti(c, o, qs, specQs); d != nil {
+			fmt.Printf("%s\nverdict: %s\n", d.What, d.SpecVerdict)
+			rc = 1
 		}
 		// the other load orders of the same headers
 		if ts := c.texts(); len(ts) <= 6 && orderOracleApplies(c) {
